@@ -15,6 +15,9 @@
 //   urban   m MATDATA mean emax tmebsgs b2 | script     -> loss draws
 //   eloss   m p HELPERDATA MATDATA | script             -> model loss draws
 //   stat seed n urban|eloss ...(same, no script)        -> n mean var m4 min max  (Xorwow; TEST)
+//   bb|mubb p pmass charge emass energy cutoff | script  -> min max [use_rad envelope] T draws
+//   bragg   p pmass charge emass energy cutoff proton_mass | script   (same)
+//   stat seed n bb|bragg|mubb ...                       -> the n sampled energies (hex)
 // HELPERDATA = eldens e-mass p-mass charge is_electron(0/1) r_electron energy cutoff mean step
 // MATDATA    = I logI f1 f2 E1 E2 logE1 logE2
 #include <cmath>
@@ -45,6 +48,9 @@
 // dependencies are already included above, so nothing else is affected)
 #define private public
 #include "celeritas/em/distribution/EnergyLossUrbanDistribution.hh"
+#include "celeritas/em/distribution/BetheBlochEnergyDistribution.hh"
+#include "celeritas/em/distribution/BraggICRU73QOEnergyDistribution.hh"
+#include "celeritas/em/distribution/MuBBEnergyDistribution.hh"
 #undef private
 #include "celeritas/em/distribution/EnergyLossTraits.hh"
 
@@ -318,7 +324,75 @@ int main()
                     out += " " + H(value_as<MevMass>(par.mass())) + " "
                            + H(value_as<units::ElementaryCharge>(par.charge()));
                 }
+                out += " " + H(native_value_to<MevMass>(constants::proton_mass).value());
                 std::cout << out << "\n";
+            }
+            else if ((op == "bb" || op == "mubb" || op == "bragg") && n == (op == "bragg" ? 7u : 6u))
+            {
+                // p pmass charge emass energy cutoff [proton_mass]
+                if (p[0] >= w.particles->size())
+                {
+                    std::cout << "bad-op\n";
+                    continue;
+                }
+                ParticleId pid{static_cast<unsigned>(p[0])};
+                auto par = w.particles->get(pid);
+                if (!(same(value_as<MevMass>(par.mass()), p[1])
+                      && same(value_as<units::ElementaryCharge>(par.charge()), p[2])
+                      && same(value_as<MevMass>(w.fluct->host_ref().electron_mass), p[3])
+                      && (op != "bragg"
+                          || same(native_value_to<MevMass>(constants::proton_mass).value(), p[6]))))
+                {
+                    std::cout << "bad-data\n";
+                    continue;
+                }
+                ParticleTrackView particle(
+                    w.particles->host_ref(), w.particle_state.ref(), TrackSlotId{0});
+                particle = {pid, MevEnergy{D(p[4])}};
+                MevEnergy cut{D(p[5])};
+                MevMass em{D(p[3])};
+                auto run = [&](auto& dist, string const& head) {
+                    if (stat)
+                    {
+                        using HostStore = CollectionStateStore<XorwowRngStateData, MemSpace::host>;
+                        auto params = std::make_shared<XorwowRngParams>(static_cast<unsigned>(seed));
+                        HostStore states(params->host_ref(), StreamId{0}, 1);
+                        XorwowRngEngine rng(params->host_ref(), states.ref(), TrackSlotId{0});
+                        string out;
+                        for (std::uint64_t i = 0; i < count; ++i)
+                            out += (i ? " " : "") + H(value_as<MevEnergy>(dist(rng)));
+                        std::cout << out << "\n";
+                    }
+                    else
+                    {
+                        vh::ScriptedEngine rng(script);
+                        try
+                        {
+                            double r = value_as<MevEnergy>(dist(rng));
+                            std::cout << head << H(r) << " " << rng.draws() << "\n";
+                        }
+                        catch (vh::ScriptExhausted const&)
+                        {
+                            std::cout << head << "script-exhausted\n";
+                        }
+                    }
+                };
+                if (op == "bb")
+                {
+                    BetheBlochEnergyDistribution d(particle, cut, em);
+                    run(d, H(d.min_secondary_energy().value()) + " " + H(d.max_secondary_energy().value()) + " ");
+                }
+                else if (op == "bragg")
+                {
+                    BraggICRU73QOEnergyDistribution d(particle, cut, em);
+                    run(d, H(d.min_secondary_energy().value()) + " " + H(d.max_secondary_energy().value()) + " ");
+                }
+                else
+                {
+                    MuBBEnergyDistribution d(particle, cut, em);
+                    run(d, H(d.min_secondary_energy().value()) + " " + H(d.max_secondary_energy().value())
+                               + (d.use_rad_correction_ ? " 1 " : " 0 ") + H(d.envelope_) + " ");
+                }
             }
             else if (op == "matdata" && n == 1 && p[0] < w.materials->size() && !stat)
             {
